@@ -161,7 +161,7 @@ void sweep_kind_values(vf::Run& r, const Kind& k, const std::vector<uint64_t>& v
 }  // namespace
 
 // ---- 8/16-bit: every value of every accessor -------------------------------------------------
-VF_SECTION(sweep_small, 8, 8, 60) {
+VF_SECTION(sweep_small, 8, 8, 180) {
   for (auto& k : kinds()) {
     if (k.w > 2) continue;
     r.note(k.name);
@@ -177,7 +177,7 @@ VF_SECTION(sweep_small, 8, 8, 60) {
 }
 
 // ---- 24-bit getters: all 2^24 three-byte inputs -----------------------------------------------
-VF_SECTION(sweep24, 16, 16, 60) {
+VF_SECTION(sweep24, 16, 16, 180) {
   auto ks = kinds_of_width(3);
   Exact b(5);
   b.p[0] = 0x5A;
@@ -220,7 +220,7 @@ VF_SECTION(sweep24, 16, 16, 60) {
 }
 
 // ---- 32-bit: lane set (both tiers, full check) --------------------------------------------------
-VF_SECTION(sweep32, 8, 8, 60) {
+VF_SECTION(sweep32, 8, 8, 180) {
   std::vector<uint64_t> vals = structured_values(4);
   for (uint64_t s : float_specials(4)) vals.push_back(s);
   for (uint64_t s : boundary_values(4)) vals.push_back(s);
@@ -237,7 +237,7 @@ VF_SECTION(sweep32, 8, 8, 60) {
 // Light check per value: one StringWriter and one BufferWriter receive the value through all 12
 // put_* accessors; the 48 bytes must equal the reference encoding and the 12 get_* accessors must
 // return the reference decoding with where() advancing by 4 each.
-VF_SECTION(sweep32_all, 0, 16, 60) {
+VF_SECTION(sweep32_all, 0, 16, 180) {
   auto ks = kinds_of_width(4);
   const size_t nk = ks.size();
   StringWriter sw;
@@ -289,7 +289,7 @@ VF_SECTION(sweep32_all, 0, 16, 60) {
 }
 
 // ---- 48-bit getters ---------------------------------------------------------------------------
-VF_SECTION(sweep48, 4, 4, 60) {
+VF_SECTION(sweep48, 4, 4, 180) {
   std::vector<uint64_t> vals = structured_values(6);
   for (uint64_t s : boundary_values(6)) vals.push_back(s);
   lane_product(L5(), 6, [&](uint64_t v) { vals.push_back(v); });
@@ -302,7 +302,7 @@ VF_SECTION(sweep48, 4, 4, 60) {
 }
 
 // ---- 64-bit ints and doubles -------------------------------------------------------------------
-VF_SECTION(sweep64, 16, 16, 60) {
+VF_SECTION(sweep64, 16, 16, 180) {
   std::vector<uint64_t> vals = structured_values(8);
   for (uint64_t s : float_specials(8)) vals.push_back(s);
   for (uint64_t s : boundary_values(8)) vals.push_back(s);
